@@ -216,6 +216,8 @@ def engine_selftest():
 
 
 def run(ctx):
+    from .. import xfeat
+    xfeat.sound_sweep(ctx, modes=("plain", "reuse"))      # witness spaces of the cross-feature compositions (pv/xfeat.py)
     progs = value_programs()
     d2 = depth2_programs()
     tasks = []
@@ -305,6 +307,9 @@ def run(ctx):
 
 
 def replay(case):
+    if isinstance(case, dict) and case.get("xfeat"):
+        from .. import xfeat
+        return xfeat.sound_replay(case)
     H.bind(case["p"])
     prog = {"expr": _t(case["prog"]["expr"]), "kinds": list(case["prog"]["kinds"])}
     st = {"instances": 0, "skipped_raise": 0, "undecided": 0, "capped": 0, "nodes": 0, "solutions": 0,
